@@ -174,6 +174,9 @@ func VerifyUnit(ld *Loaded, u *FuncUnit, cfg *Config) (res *UnitResult) {
 		for _, o := range x.obls {
 			ok := o.Kind == "assert" || o.Kind == "cover" || o.Kind == "inv-init" || o.Kind == "inv-pres"
 			for _, k := range u.C.PartialKinds {
+				if k == "lock" && o.Kind == "pre" && (strings.Contains(o.Tag, "held(") || strings.Contains(o.Tag, "nolocks(") || strings.Contains(o.Tag, "sending(")) {
+					ok = true // a callee's contract is only assumed where its lock-state precondition holds
+				}
 				if o.Kind == k || (strings.Contains(k, ":") && strings.Contains(o.Name, "#"+k)) {
 					ok = true
 				}
@@ -433,6 +436,9 @@ func sliceHyp(hyp, goal *Term, noQuant bool) []*Term {
 
 // a fact is relevant when its left-most uninterpreted application (the axiomatised term) is in the cone
 func factRelevant(f *Term, cone map[int]bool) bool {
+	if f.Op == "forall" {
+		return true // universally stated constructor axioms: few, always included
+	}
 	var trig *Term
 	var find func(t *Term)
 	find = func(t *Term) {
